@@ -10,7 +10,7 @@ import (
 	"github.com/fido-device-onboard/go-fdo/protocol"
 )
 
-type eatFaults struct{ nonce, guid, ueidType, noNonce bool }
+type eatFaults struct{ nonce, guid, ueidType, noNonce, nonceType bool }
 
 // eat encodes the claims map of a device attestation token: {10: nonce, 256: 0x01||GUID, -257: fdo claim}.
 func eat(guid protocol.GUID, nonce protocol.Nonce, fdoClaim any, f eatFaults) []byte {
@@ -28,13 +28,16 @@ func eat(guid protocol.GUID, nonce protocol.Nonce, fdoClaim any, f eatFaults) []
 	if !f.noNonce {
 		m[10] = nonce[:]
 	}
+	if f.nonceType { // the right nonce, but not as a byte string
+		m[10] = []any{nonce[:]}
+	}
 	if fdoClaim != nil {
 		m[-257] = fdoClaim
 	}
 	return enc(m)
 }
 
-type s1opt struct{ nullPayload, flip, algZero bool }
+type s1opt struct{ nullPayload, flip, algZero, alg512, short bool }
 
 // sign1 encodes a tagged COSE_Sign1 over payload, signed as the library's clients sign.
 func sign1(key crypto.Signer, pss bool, unprot cose.HeaderMap, payload []byte, o s1opt) []byte {
@@ -64,8 +67,23 @@ func sign1(key crypto.Signer, pss bool, unprot cose.HeaderMap, payload []byte, o
 		}
 		s.Signature = sig
 	}
+	if o.alg512 {
+		// a registered algorithm the key types of FDO never use, with signature bytes of the usual length that nobody computed
+		alg := int64(-36) // ES512
+		if _, ok := key.Public().(*ecdsa.PublicKey); !ok {
+			alg = -259 // RS512
+			if pss {
+				alg = -39 // PS512
+			}
+		}
+		s.Protected[cose.AlgLabel] = alg
+		s.Signature = rnd(len(s.Signature))
+	}
 	if o.flip {
 		s.Signature = flip(s.Signature)
+	}
+	if o.short && len(s.Signature) > 2 {
+		s.Signature = s.Signature[:len(s.Signature)-2]
 	}
 	if o.nullPayload {
 		s.Payload = nil
